@@ -233,6 +233,15 @@ def gen_inputs(tier, rnd):
             if (lo + hi) % 3 == 0:
                 for parts in ("inner-first", "descending", "three", "ascending"):
                     yield [dname, [{"kind": "int", "name": "n", "empty": False, "lo": lo, "hi": hi, "parts": parts}]]
+    # decimal limits of every shape: below 0.1 (leading zeros behind the point), trailing zeros, whole numbers, negative
+    from decimal import Decimal as _D
+    lits = ["0.005", "0.05", "0.5", "-0.05", "0.0004", "0.01", "5.25", "100", "99.999", "0", "-7.5", "0.10", "1.50", "-0.001", "12345678.1234", "0.000"]
+    for dname, _ in DIALECTS:
+        for x, y in itertools.combinations(lits, 2):
+            if _D(x) > _D(y):
+                x, y = y, x
+            if _D(x) < _D(y):
+                yield [dname, [{"kind": "dec", "name": "d", "empty": False, "lo": x, "hi": y}]]
     # keyword pool: every name alone under every dialect
     for dname, _ in DIALECTS:
         for nm in NAMES:
